@@ -145,6 +145,13 @@ let show_opt (f : 'a -> string) (o : 'a option) : string = match o with Some x -
 let show_buf_st ((b, r) : n list * unit res) : string =
   match r with Ok _ -> "ok " ^ hex b | Err e -> "err " ^ show_err e ^ " " ^ hex b | Panic -> "panic"
 let show_offs (o : n list) : string = String.concat "," (List.map (fun x -> ZA.to_string (zt_of_n x)) o)
+(* the outcome of a selection together with the caller's (data, offsets) AS THE MODEL LEFT THEM (SelSt.v: state functions over
+   the two vectors): printed on Ok and on Err, like the harness prints the vectors the Rust function left *)
+let show_sel_st (((d, o), r) : (n list * n list) * unit res) : string =
+  match r with
+  | Ok _ -> "ok " ^ hex d ^ " " ^ show_offs o
+  | Err e -> "err " ^ show_err e ^ " " ^ hex d ^ " " ^ show_offs o
+  | Panic -> "panic"
 let show_sel (prefix : n list) (r : (n list * n list) res) : string =
   match r with
   | Ok (b, o) -> "ok " ^ hex b ^ " " ^ show_offs o
